@@ -334,7 +334,7 @@ def run_context(ctx, lit):
     return "?"
 
 
-def expect_context(ctx, direct, goal, num):
+def expect_context(ctx, direct, goal, num, text=""):
     """what the context does with the converter's result (harness-side knowledge of the verbs, kept minimal):
     returns the expected text, or None when the context's own rules take over (not compared)"""
     def val(c):
@@ -371,7 +371,8 @@ def expect_context(ctx, direct, goal, num):
             return None                                   # parsed as an indirect period
         v = val(num)
         if isinstance(v, complex):
-            return None                                   # a complex period is rejected (how: property C14, defect D8)
+            # not a real number (Convert2RealNum, fix D08): read as an indirect period if it is a path (`j`, `infj`)
+            return "indirect" if text.strip().isalpha() and text.isascii() else "ERR ParseError"
         return canon_value(max(0.0, v))
     if ctx == "timeout":
         if num == "ERR":
@@ -460,7 +461,7 @@ class CHECK(core.Check):
         if case.get("ctx"):
             d, g, nm = (model_value(replies[9]), model_value(replies[3]), model_value(replies[0]))
             for ctx in CONTEXTS:
-                e = expect_context(ctx, d, g, nm)
+                e = expect_context(ctx, d, g, nm, case["text"])
                 out.append("ctx %s %s" % (ctx, "-" if e is None else e))
         return out
 
@@ -482,7 +483,7 @@ class CHECK(core.Check):
         if case.get("ctx"):
             d, g, nm = out[9].split(" ", 1)[1], out[3].split(" ", 1)[1], out[0].split(" ", 1)[1]
             for ctx in CONTEXTS:
-                e = expect_context(ctx, d, g, nm)
+                e = expect_context(ctx, d, g, nm, case["text"])
                 out.append("ctx %s %s" % (ctx, "-" if e is None else run_context(ctx, t)))
         return out
 
@@ -504,7 +505,7 @@ class CHECK(core.Check):
             d, g, nm = (ref_convert(9, t), ref_convert(3, t), ref_convert(0, t))
             for line in out[11:]:
                 _, ctx, got = line.split(" ", 2)
-                e = expect_context(ctx, d, g, nm)
+                e = expect_context(ctx, d, g, nm, case["text"])
                 if e is not None and got != e:
                     return "context %s: literal %r arrives as %s; the documented conversion gives %s" % (ctx, t, got, e)
         return None
